@@ -1,5 +1,6 @@
 import PyhmsVerif.Model.Proto
 import PyhmsVerif.Model.Repair
+import PyhmsVerif.Model.Problem
 /-!
 Line-protocol driver: one operation per input line, one answer per output line.
 `lake env lean --run Driver.lean < ops.txt`
@@ -21,6 +22,46 @@ def parseRounding : P F64.Rounding := do
   | "ideal" => pure F64.ideal
   | _ => failure
 
+def fitP : P Fit := do
+  let t ← tok
+  match t with
+  | "inf" => pure .posInf
+  | "-inf" => pure .negInf
+  | _ => match parseRat t with
+    | some q => pure (.fin q)
+    | none => failure
+
+def showFit : Fit → String
+  | .posInf => "inf"
+  | .negInf => "-inf"
+  | .fin q => showRat q
+
+def wrapperP : P Problem.Wrapper := do
+  let t ← tok
+  match t with
+  | "C" => do let n ← nat; pure (.counting n)
+  | "X" => do let n ← nat; let c ← nat; pure (.cutoff n c)
+  | "S" => do let n ← nat; pure (.stats n)
+  | "P" => do
+    let n ← nat; let o ← rat; let e ← rat
+    let eta ← tok
+    let hit ← bool
+    pure (.precision n o e (eta.toNat?) hit)
+  | _ => failure
+
+def showWrapper : Problem.Wrapper → String
+  | .counting n => s!"C {n}"
+  | .cutoff n c => s!"X {n} {c}"
+  | .stats n => s!"S {n}"
+  | .precision n _ _ eta hit => s!"P {n} {showOpt toString eta} {showBool hit}"
+
+/-- state and answer after every call of the sequence -/
+def wrapTrace (mx : Bool) (ws : List Problem.Wrapper) (vs : List Fit) : String :=
+  let step := fun (acc : List Problem.Wrapper × List String) (v : Fit) =>
+    let p := Problem.evalStack mx acc.1 v
+    (p.1, acc.2 ++ [s!"{showFit p.2.1} {showBool p.2.2} | " ++ " ; ".intercalate (p.1.map showWrapper)])
+  " || ".intercalate (vs.foldl step (ws, [])).2
+
 def handle : P String := do
   let op ← tok
   match op with
@@ -30,6 +71,9 @@ def handle : P String := do
   | "affine" => do
     let lo ← rat; let hi ← rat; let u ← rat
     pure (showOpt showRat (Repair.affine F64.rnd lo hi u))
+  | "wrap" => do
+    let mx ← bool; let ws ← list wrapperP; let vs ← list fitP
+    pure (wrapTrace mx ws vs)
   | "rnd" => do
     let x ← rat
     pure (showOpt showRat (F64.rnd x))
